@@ -12,6 +12,7 @@ import numpy as np
 from harness import materialize as mat
 from harness import par
 
+_REPO = os.environ.get("VERIF_REPO", "/repo").rstrip("/")
 RTOL = 1e-9
 ATOL = 1e-12
 RTOL32 = 2e-6
@@ -30,7 +31,7 @@ def exc_site(e):
     tb = traceback.extract_tb(e.__traceback__)
     where = "?"
     for fr in tb:
-        if "/repo/" in fr.filename or fr.filename.startswith("/repo"):
+        if fr.filename.startswith(_REPO + "/"):
             where = "%s:%d" % (os.path.basename(fr.filename), fr.lineno)
     return "exception:%s@%s" % (type(e).__name__, where)
 
